@@ -1,5 +1,6 @@
 #!/bin/bash
 ./setup.sh > setup.log 2>&1 || { echo SETUP-FAILED; exit 1; }
-for seed in 2 3 4 5 6; do for p in C04 C12 C14 C16 C17 C19; do VERIF_SEED=$seed ./check $p --tier quick 2>&1 | grep -E "^(VIOLATION|  )" | cut -c1-200 | sed "s/^/seed=$seed /"; done; echo "seed $seed done"; done
-for p in C04 C17 C19 C14 C12 C16; do ./check $p --tier thorough 2>&1 | grep -E "^(OK|VIOLATION|  )" | cut -c1-200; done
+PROPS=${1:-"C04 C12 C16"}
+for seed in 2 3 4 5 6; do for p in $PROPS; do VERIF_SEED=$seed ./check $p --tier quick 2>&1 | grep -E "^(VIOLATION|  )" | cut -c1-200 | sed "s/^/seed=$seed /"; done; echo "seed $seed done"; done
+for p in $PROPS; do ./check $p --tier thorough 2>&1 | grep -E "^(OK|VIOLATION|  )" | cut -c1-200; done
 echo "final subset done"
